@@ -1,0 +1,14 @@
+//go:build verif
+
+package schedule
+
+// VerifYield, when set by the verification harness before any schedule is used,
+// is called at points of compositeSchedule where no lock is held, so that the
+// harness can decide which caller proceeds next.
+var VerifYield func(point string)
+
+func verifYield(point string) {
+	if f := VerifYield; f != nil {
+		f(point)
+	}
+}
